@@ -22,7 +22,10 @@ let fault_of s = match s with "ok" -> Deliver | "drop" -> Drop | "garble" -> Gar
 let kind_of_out o = match o with
   | OCh ENQ -> "ENQ" | OCh EOT -> "EOT" | OCh ACK -> "ACK" | OCh NAK -> "NAK" | OCh Noise -> "NOISE" | OBlk _ -> "BLK"
 
-let todo_of s = if s = "-" then [] else List.map (fun t -> (nat_of_int (int_of_string t), S O)) (String.split_on_char ',' s)
+let todo_of s = if s = "-" then [] else
+    List.map (fun t -> match String.split_on_char ':' t with
+        | [tok; n] -> (nat_of_int (int_of_string tok), nat_of_int (int_of_string n))
+        | _ -> (nat_of_int (int_of_string t), S O)) (String.split_on_char ',' s)
 
 let check_u lhs rhs =
   match split_ws lhs with
@@ -89,8 +92,11 @@ let check_u lhs rhs =
            | Down -> "failed"
            | Idle -> if e.e_done <> [] then "ok" else "idle"
            | _ -> "busy" in
+         (* blocks ACK'd = all blocks of the completed messages + the ACK'd blocks of the one in progress *)
+         let blocks_of tok = List.fold_left (fun a (t, n) -> if t = tok then int_of_nat n else a) 0 (if real = A then ta else tb) in
+         let acked = List.fold_left (fun a t -> a + blocks_of t) 0 e.e_done + int_of_nat e.e_k in
          let model = Printf.sprintf "%s handed=%d yields=%d sendok=%d failed=%d" result
-             (int_of_nat e.e_handed) (int_of_nat e.e_yields) (List.length e.e_done) (if e.e_ph = Down then 1 else 0) in
+             (int_of_nat e.e_handed) (int_of_nat e.e_yields) acked (if e.e_ph = Down then 1 else 0) in
          let obs = String.concat " " (split_ws rhs) in
          if model = obs then None else Some (Printf.sprintf "final state model=[%s] impl=[%s]" model obs)
        end)
